@@ -187,6 +187,9 @@ def check(ck: Checker) -> None:
     from . import round7 as _r7
 
     _r7.dir_token_exact(ck, "C05.dirtoken")
+    from . import round8 as _r8
+
+    _r8.nanoseconds_exact(ck, "C05.dirtoken")
 
 
 def _check_overwrite(ck, fn, g, n, c, dest, guarded_removers, depth):
